@@ -111,6 +111,11 @@ pub struct Resolver<'ast, 'res> {
     // Track the statement currently being analyzed so local use facts can be attached once.
     current_stmt: Option<StmtId>,
 
+    // Names declared inside the function whose return type is being inferred ahead of
+    // checking its body (parameters and `make` locals). They shadow same-named outer
+    // variables, whose types must not be mistaken for theirs.
+    inference_shadow: Vec<&'ast str, &'res Arena>,
+
     /// Collection of semantic errors found during analysis
     pub errors: Diagnostics<'res>,
 
@@ -138,6 +143,7 @@ impl<'ast, 'res> Resolver<'ast, 'res> {
             in_loop: 0,
             scope_stack: Vec::new_in(arena),
             current_stmt: None,
+            inference_shadow: Vec::new_in(arena),
             errors: Diagnostics::new(arena),
             facts: ProgramFacts::new(facts_arena),
             optimization_plan: None,
@@ -559,7 +565,11 @@ impl<'ast, 'res> Resolver<'ast, 'res> {
         for _ in 0..pending.len() {
             let mut changed = false;
             for pending_def in &pending {
+                self.inference_shadow.clear();
+                self.inference_shadow.extend(pending_def.params.params.iter().copied());
+                Self::collect_declared_names(pending_def.body, &mut self.inference_shadow);
                 let return_type = self.infer_function_return_type(pending_def.body);
+                self.inference_shadow.clear();
                 let current_scope = self
                     .function_scopes
                     .last_mut()
@@ -1194,7 +1204,12 @@ impl<'ast, 'res> Resolver<'ast, 'res> {
             Expr::Bool(..) => Some(ValueType::Bool),
             Expr::Array { .. } => Some(ValueType::Array),
             Expr::Index { .. } => Some(ValueType::Dynamic),
-            Expr::Var(v, ..) => self.lookup_var_info(v).map(|(t, _)| t),
+            Expr::Var(v, ..) => {
+                if self.inference_shadow.iter().any(|name| name == v) {
+                    return Some(ValueType::Dynamic);
+                }
+                self.lookup_var_info(v).map(|(t, _)| t)
+            }
             Expr::Binary { op, lhs, rhs, .. } => {
                 let l = self.infer_expr_type(lhs)?;
                 let r = self.infer_expr_type(rhs)?;
@@ -1310,6 +1325,25 @@ impl<'ast, 'res> Resolver<'ast, 'res> {
 
         let first_type = return_types[0];
         if return_types.iter().all(|t| *t == first_type) { first_type } else { ValueType::Dynamic }
+    }
+
+    /// Names declared by `make` in a function body, nested blocks included,
+    /// nested function bodies excluded.
+    fn collect_declared_names(block: BlockRef<'ast>, names: &mut Vec<&'ast str, &'res Arena>) {
+        for stmt in block.stmts {
+            match stmt {
+                Stmt::Assign { var, .. } => names.push(var),
+                Stmt::If { then_b, else_b, .. } => {
+                    Self::collect_declared_names(then_b, names);
+                    if let Some(eb) = else_b {
+                        Self::collect_declared_names(eb, names);
+                    }
+                }
+                Stmt::Loop { body, .. } => Self::collect_declared_names(body, names),
+                Stmt::Block { block, .. } => Self::collect_declared_names(block, names),
+                _ => {}
+            }
+        }
     }
 
     fn collect_return_types(
